@@ -20,6 +20,7 @@ package peersim
 
 import (
 	"fmt"
+	"io"
 	"math/rand"
 	"net"
 	"os"
@@ -36,6 +37,7 @@ import (
 	"time"
 
 	"github.com/btcsuite/btcd/chaincfg/v2"
+	"github.com/btcsuite/btclog"
 	"github.com/btcsuite/btcd/chainhash/v2"
 	"github.com/btcsuite/btcd/peer"
 	"github.com/btcsuite/btcd/wire/v2"
@@ -56,6 +58,16 @@ func TestWorker(t *testing.T) {
 		LeakOracle:   "O5-goroutines-end",
 		Real:         []string{"peer.Peer (negotiation, inHandler, outHandler, queueHandler, stallHandler, pingHandler)", "wire codec"},
 		Stub:         []string{"remote endpoint script", "simconn", "application callers", "listeners"},
+		Setup: func(t *testing.T) {
+			// every second worker process runs the peer with trace logging
+			// on (into the void): the log formatting helpers then run on the
+			// peer's goroutines, under the race detector
+			if w, _ := strconv.Atoi(os.Getenv("VERIF_WORKER")); w%2 == 1 {
+				l := btclog.NewBackend(io.Discard).Logger("PEER")
+				l.SetLevel(btclog.LevelTrace)
+				peer.UseLogger(l)
+			}
+		},
 	}, run)
 }
 
